@@ -19,6 +19,9 @@ CONDS = {
     "nest": ("('and', ('or', V('is_instance', str), V('greater_than', t1)), ('xor', V('truthy'), V('equal_to', e1)))", [("t1", "int"), ("e1", "int")]),
     "andnull": ("('and', ('and', V('greater_than', t1), V('less_than', t2)), NULL)", [("t1", "int"), ("t2", "int")]),
     "factor": ("V('has_factor', t1)", [("t1", "int")]),
+    "eqlist": ("V('equal_to', [e2, 3])", [("e2", "int")]),
+    "nelist": ("('or', V('not_equal_to', [e2, 3]), V('equal_to', []))", [("e2", "int")]),
+    "itemslist": ("V('items_contain', c=[e2, 3])", [("e2", "int")]),
 }
 
 
@@ -170,4 +173,11 @@ ok = ok and same('schema verdict', (v.is_valid, v.num_failures), (valid, len(fai
 return ok
 """
         out.append(mk_case(f"c05.subclass_docs.{cid}", [("t1", "int"), ("u1", U), ("u2", "int")], body, pre=[f"BU({L}, t1, u1, u2)"], stubs=["sym_repr"]))
+    # equality-style callables with a list argument, on documents that hold an equal list node
+    for c in ("eqlist", "nelist", "itemslist"):
+        for sh in ((("a", "c"), ("M",), ("M", "M")) if c != "itemslist" else (("a",), ("M",))):
+            case = rule_case(sh, c, "dm", L)
+            case["id"] = case["id"].replace(".dm", ".dm3")
+            case["body"] = case["body"].replace("'c': [u2, u3]", "'c': [u2, 3], 'e': []")
+            out.append(case)
     return out
